@@ -81,6 +81,8 @@ class Model:
                 elif n["kind"] == "RecordDecl":
                     self._add_record(n)
         self._callgraph = None
+        from . import normalize
+        self.norm_notes = normalize.normalize(self) if os.environ.get("VERIF_NO_NORMALIZE") != "1" else []
 
     def _fkey(self, unit, name, static, in_header):
         if static and not in_header:
